@@ -214,6 +214,7 @@ impl<T: Socket + ?Sized> Worker<T> {
                             block_number = received_block_number;
                             size = data.len();
                             window.add(data)?;
+                            retry_cnt = 0;
 
                             if size < self.blk_size {
                                 break;
